@@ -157,14 +157,16 @@ CORPUS_VALID = [b'if (a) b=1 else\nc=2\n', b'if (a) b=1 else ;\nc=2\n', b'if (a)
                 b'if (a) do x=1 end\n', b'if (a) if (b) c=1\nd=2\n', b'if (a) b=1 else c=2\nd=3\n', b'if (a) b=1 -- c\nd=3\n', b'do if (a) b=1\nc=2 end\n',
                 b'x=1;;y=2;\n', b';x=1\n', b'x = {1,2;3,}\n', b'x = {a=1,\n  [2]=3;\n  f(),\n}\n', b'for i=1,2 do end for a,b in c do end\n',
                 b'function a.b:c(...) return ... end\n', b'while true do break x=1 end\n', b'x\t=\t1\r\ny = 2\r\n', b'x=1\n\n\n\ny=2\n', b'do\n\nx=1\nend\n',
-                b'do\n// c\nx=1\nend\n', b'x=1--c\ny=2//d\n']
+                b'do\n// c\nx=1\nend\n', b'x=1--c\ny=2//d\n',
+                b'if x==1then x=2 end\n', b'y=x>2or 1\n', b'z=3x\n' if False else b'if x<0x1then y=1 end\n']      # numeral directly followed by a word
 CORPUS_TEXT = [b'print(x))', b'function f()\n x=1\nend\nend', b'a=1\nb', b'x=1 end', b'x=1)', b'x=1 ?',      # the unparsed token is the very last token
                b'x=1\n?x,y\nz=2\n', b'a |= 1\n', b'x=1\na |= 1\n', b'?x,y\n', b'a=b=c\n', b'x=1 end\n', b'f() )\n', b'#include foo.lua\nx=1\n',
                b'(f or g)(x)\n', b'x=(a+b).c\n', b'(-x):f()\n', b'x=(a)(b)\n', b'(a).b=1\n', b'("x"):len()\n', b'(f)(x)\n', b'x=((a))\n', b'x=(a)\n',
                b'if (a) do x=1 end\n', b'if (a) do\n x=1\nend\n', b'if (a) if (b) c=1\nd=2\n', b'x = ()\n', b'f(())\n', b'x = {()}\n', b'()[1]=2\n',
                b'if (a) b=1 else c=2\nd=3\n', b'if (a) b=1 -- c\nd=3\n', b'do if (a) b=1\nc=2 end\n', b'IF X THEN END\n', b'x=1;;y=2;\n', b';x=1\n',
                b'x = {1,2;3,}\n', b'x = {a=1,\n  [2]=3;\n  f(),\n}\n', b'for i=1,2 do end for a,b in c do end\n', b'function a.b:c(...) return ... end\n',
-               b'while true do break x=1 end\n', b'x\t=\t1\r\ny = 2\r\n', b'x=1\n\n\n\ny=2\n', b'do\n\nx=1\nend\n', b'do\n// c\nx=1\nend\n', b'x=1--c\ny=2//d\n']
+               b'while true do break x=1 end\n', b'x\t=\t1\r\ny = 2\r\n', b'x=1\n\n\n\ny=2\n', b'do\n\nx=1\nend\n', b'do\n// c\nx=1\nend\n', b'x=1--c\ny=2//d\n',
+                b'if x==1then x=2 end\n', b'y=x>2or 1\n', b'z=3x\n' if False else b'if x<0x1then y=1 end\n']      # numeral directly followed by a word
 
 
 def corpus_cases():
@@ -406,6 +408,7 @@ def run_cases(cases, ctx):
             a = [next(ans) for _ in ws]
             bad = [(r, x) for r, x in zip(ws, a) if x != 'true']
             bad += [(r, 'unlexable') for r in o.get('writes', []) if r['res'] == 'OK' and r.get('out_enc') is None]
+            bad += _not_loaded(c, o)
             if bad:
                 violations.append(_violation(c, o, bad, ctx, minimized))
     for c, o in zip(cases, obs):
@@ -425,6 +428,16 @@ def run_cases(cases, ctx):
     return {'evaluations': evaluations, 'nontrivial': len(keys), 'rule': RULE,
             'samples': [describe(c, o) for c, o in list(zip(cases, obs))[::step]][:6],
             'disagreements': disagreements, 'violations': violations, 'histogram': hist}
+
+
+def _not_loaded(c, o):
+    """a VALID program that picotool does not even load (the lexer or the parser raises): luafmt cannot succeed on it"""
+    if not c.get('valid') or 'writes' in o or o.get('timeout'):
+        return []
+    err = o.get('lex_error') or (o.get('parse', '')[4:] if o.get('parse', '').startswith('ERR ') else None)
+    if not err or err == 'RecursionError':
+        return []
+    return [({'w': 'load', 'res': 'ERR ' + err}, 'false raised')]
 
 
 def _unconsumed(o):
@@ -452,6 +465,7 @@ def _check_one(c, ctx):
     a = lib.run_driver(ctx['monitor_exe'], rq) if rq else []
     bad = [(r, x) for r, x in zip(ws, a) if x != 'true']
     bad += [(r, 'unlexable') for r in o.get('writes', []) if r['res'] == 'OK' and r.get('out_enc') is None]
+    bad += _not_loaded(c, o)
     return o, bad
 
 
